@@ -1,52 +1,60 @@
 #!/bin/bash
-# Confirms a seeded break and runs checks against it.
-#   ./seed_eval.sh <PROP> <A|B> "<check ids to run>"
-# 1. in the scratch worktree /tmp/wt_<PROP>: change applied -> existing suite passes, demo fails; change removed -> demo passes
-# 2. change applied to /repo -> listed checks (quick) -> undone
-# 3. stored under /verif/seeded/<PROP>_<X>/ with meta.json
+# Confirms a seeded break and runs checks against it, without touching /repo or /verif/evidence.
+#   ./seed_eval.sh <PROP> <A|B> "<check ids to run>" [worktree prefix, default /tmp/wt_]
+# 1. in the agent's scratch worktree: change applied -> existing suite passes, demo fails; change removed -> demo passes
+# 2. the change is applied to a second scratch worktree of /repo (/tmp/seedrepo) that a scratch copy of the
+#    harness (/tmp/seedharness, path dependencies rewritten) builds against; the listed checks run in the quick tier
+#    with RMLV_ROOT=/tmp/seedroot (evidence and replays go there)
+# 3. stored under /verif/seeded/<PROP>_<X>[suffix]/ with meta.json
 set -u
-P="$1"; X="$2"; CHECKS="${3:-$1}"
-WT=/tmp/wt_$P
+P="$1"; X="$2"; CHECKS="${3:-$1}"; PREFIX="${4:-/tmp/wt_}"; SUFFIX="${5:-}"
+WT=$PREFIX$P
 S=$WT/_seeded
 [ -f "$S/$X.diff" ] || { echo "no $S/$X.diff"; exit 2; }
 crate=amf0; grep -q "rml_rtmp" "$S/${X}_demo.rs" && crate=rtmp
+feat=""; grep -q "verif_hooks" "$S/${X}_demo.rs" && [ $crate = rtmp ] && feat="--features verif_hooks"
+export CARGO_NET_OFFLINE=true
 cd $WT || exit 2
 git checkout -q -- . ; rm -f rtmp/tests/seeded_*.rs amf0/tests/seeded_*.rs
-export CARGO_NET_OFFLINE=true
 git apply "$S/$X.diff" || { echo "patch does not apply"; exit 2; }
 suite=$(cargo test --workspace --offline 2>&1 | grep -E "^test result" | awk '{p+=$4; f+=$6} END {print p" passed "f" failed"}')
 mkdir -p $crate/tests; cp "$S/${X}_demo.rs" $crate/tests/seeded_demo.rs
-demo_with=$(cargo test -p rml_$crate --test seeded_demo --offline 2>&1 | grep -E "^test result" | tail -1)
+demo_with=$(cargo test -p rml_$crate --test seeded_demo --offline $feat 2>&1 | grep -E "^test result" | tail -1)
 git checkout -q -- .
-demo_without=$(cargo test -p rml_$crate --test seeded_demo --offline 2>&1 | grep -E "^test result" | tail -1)
+demo_without=$(cargo test -p rml_$crate --test seeded_demo --offline $feat 2>&1 | grep -E "^test result" | tail -1)
 rm -f $crate/tests/seeded_demo.rs; rmdir $crate/tests 2>/dev/null
 echo "[$P/$X] existing suite with change: $suite"
 echo "[$P/$X] demo with change:    $demo_with"
 echo "[$P/$X] demo without change: $demo_without"
-# --- against /repo
-cd /verif
-git -C /repo status --short | grep -v '^??' | grep -q . && { echo "/repo not clean"; exit 2; }
-git -C /repo apply "$S/$X.diff" || { echo "patch does not apply to /repo"; exit 2; }
+# --- scratch repo + scratch harness
+if [ ! -d /tmp/seedrepo ]; then git -C /repo worktree add --detach /tmp/seedrepo HEAD -q; cp /repo/Cargo.lock /tmp/seedrepo/; fi
+git -C /tmp/seedrepo checkout -q --detach "$(git -C /repo rev-parse HEAD)" 2>/dev/null; git -C /tmp/seedrepo checkout -q -- .
+mkdir -p /tmp/seedharness /tmp/seedroot
+rsync -a --delete --exclude target /verif/harness/ /tmp/seedharness/
+sed -i 's#/repo/rtmp#/tmp/seedrepo/rtmp#; s#/repo/amf0#/tmp/seedrepo/amf0#' /tmp/seedharness/Cargo.toml
+cp /verif/KNOWN_FINDINGS.txt /tmp/seedroot/
+git -C /tmp/seedrepo apply "$S/$X.diff" || { echo "patch does not apply to scratch repo"; exit 2; }
+( cd /tmp/seedharness && cargo build --release --offline >/tmp/seedroot/build.log 2>&1 ) || { echo "harness does not build against the change"; tail -5 /tmp/seedroot/build.log; git -C /tmp/seedrepo checkout -q -- .; exit 2; }
 results=""
 for c in $CHECKS; do
-  out=$(./check $c --tier quick --seed 7 2>&1); code=$?
+  out=$(RMLV_ROOT=/tmp/seedroot /tmp/seedharness/target/release/rmlv run $c --tier quick --seed 7 2>&1); code=$?
   sig=$(echo "$out" | grep -E "^  signature:" | head -3 | sed 's/^  signature: //' | cut -c1-110 | tr '\n' ';')
   echo "[$P/$X] check $c exit=$code $sig"
   results="$results{\"check\":\"$c\",\"exit\":$code,\"signatures\":\"$(echo $sig | sed 's/"/\\"/g')\"},"
 done
-git -C /repo checkout -- .
-D=/verif/seeded/${P}_$X; mkdir -p $D
+git -C /tmp/seedrepo checkout -q -- .
+D=/verif/seeded/${P}_$X$SUFFIX; mkdir -p $D
 cp "$S/$X.diff" $D/patch.diff; cp "$S/${X}_demo.rs" $D/demo.rs
-python3 - "$P" "$X" "$crate" "$suite" "$demo_with" "$demo_without" "[${results%,}]" "$S/notes.md" "$D/meta.json" <<'PY'
+python3 - "$P" "$X" "$crate" "$suite" "$demo_with" "$demo_without" "[${results%,}]" "$D/meta.json" "$feat" <<'PY'
 import sys, json
-P,X,crate,suite,dw,dwo,results,notes,outp = sys.argv[1:]
+P,X,crate,suite,dw,dwo,results,outp,feat = sys.argv[1:]
 meta = {
  "breaks_property": P, "variant": X, "origin": "independent sub-agent given only the property text and a scratch worktree",
- "demo": {"file": "demo.rs", "goes_in": f"{crate}/tests/", "with_change": dw, "without_change": dwo},
+ "demo": {"file": "demo.rs", "goes_in": f"{crate}/tests/", "cargo_flags": feat, "with_change": dw, "without_change": dwo},
  "existing_suite_with_change": suite,
  "what_it_needs_to_manifest": "see notes.md (section %s)" % X,
  "checks_run_against_it": json.loads(results),
- "how_run": "git -C /repo apply patch.diff; ./check <id> --tier quick --seed 7; git -C /repo checkout -- .",
+ "how_run": "patch applied to a scratch worktree of /repo; a scratch copy of /verif/harness built against it; `rmlv run <id> --tier quick --seed 7`; scratch copies removed afterwards (equivalent to: git -C /repo apply patch.diff; ./check <id> --tier quick --seed 7; git -C /repo checkout -- .)",
 }
 json.dump(meta, open(outp,'w'), indent=1)
 PY
